@@ -13,11 +13,12 @@ PID = "C11"
 LEAN_MODULE = "NiVerif.Props.C11"
 NAMESPACE = "Props.C11"
 DRIVER = "drivers/C11.lean"
-GEN_MODULES = ["Scaling", "ComplexDtypes"]
+GEN_MODULES = ["Scaling", "ComplexDtypes", "ScaledData"]
 EXTRA_LEAN_MODULES = ["NiVerif.Model.Scaling", "NiVerif.Model.Complex"]
 THEOREMS = ["stored_is_pyfloat", "stored_error_iff", "dtype_honoured", "promote_table", "getScaled_dtype", "default_dtype",
             "unsupported_dtype_TypeError", "window_ok_iff", "window_error_ValueError", "analog_window", "no_scaling_is_cast",
-            "linear_value", "roundNat_error", "roundDy_error", "linear_error", "scaled_data_eq"]
+            "linear_value", "roundNat_error", "roundDy_error", "linear_error", "scaled_data_eq",
+            "gen_scaled_dtype_tables", "gen_get_scaled_eq_model", "gen_scaled_data_eq_model"]
 RULE = ("every raw dtype (float32/64, (u)int8..64, complex64/128, ComplexInt32) x requested scaled dtype (default, both "
         "supported ones, unsupported ones) x scale mode (NO_SCALING; LinearScaleMode with gain/offset given as Python float, "
         "int, numpy.float16/32/64/longdouble, float subclass, Decimal, Fraction, NumPy integer; zero, negative, huge, tiny) x "
